@@ -939,11 +939,12 @@ func main() {
 		return ok && src(wallet.fset, s) == "common.CFG.AllBalances.MinValue"
 	}))
 
-	// ---- 7. searches that ASSUME A SORTED slice on the paths of the two callbacks (standard library: slices.BinarySearch*,
+	// ---- 7. searches that ASSUME A SORTED slice on the path of the removing callback (standard library: slices.BinarySearch*,
 	// sort.Search*, sort.Find). The entry lists of the index carry no order: a record restored from the balances cache holds
-	// its entries in file order = Go's map iteration order (model: Ev.reload / relayout); the model finds an entry by membership.
+	// its entries in file order = Go's map iteration order (model: Ev.reload / relayout); the model finds the entry to remove
+	// by membership. (On the adding path such a search only picks a position, which is not observable.)
 	sortedSearch := map[string]bool{}
-	for _, entry := range []string{"TxNotifyAdd", "TxNotifyDel"} {
+	for _, entry := range []string{"TxNotifyDel"} {
 		for _, g := range wallet.clo(wallet.funcs[entry]) {
 			ast.Inspect(g.Body, func(n ast.Node) bool {
 				c, ok := n.(*ast.CallExpr)
@@ -995,7 +996,7 @@ func main() {
 	def("entry points of client/wallet reading common.CFG.AllBalances.MinValue directly", "walletReadsCfgMinValue", "List String", leanList(direct))
 	def("entry points of client/wallet assigning the wallet's copy of CFG.AllBalances.UseMapCnt", "useMapCntWriters", "List String", leanList(umWriters))
 	def("the expressions assigned to it", "useMapCntSources", "List String", leanList(umSources))
-	def("standard-library searches that assume a SORTED slice (slices.BinarySearch*, sort.Search*, sort.Find) called on the paths of wallet.TxNotifyAdd / TxNotifyDel", "callbackPathSortedSearches", "List String", leanList(sorted(sortedSearch)))
+	def("standard-library searches that assume a SORTED slice (slices.BinarySearch*, sort.Search*, sort.Find) called on the path of wallet.TxNotifyDel (where the entry to remove is looked up)", "delPathSortedSearches", "List String", leanList(sorted(sortedSearch)))
 	sb.WriteString("\nend GocoinV.Gen.WalletCfgFacts\n")
 	out := vlib.Root() + "/lean/GocoinV/Gen/WalletCfgFacts.lean"
 	os.Remove(out)
